@@ -1207,7 +1207,11 @@ func (c *Conn) handleShortHeaderPacket(
 		if !isCoalesced && len(p.data) >= protocol.MinReceivedStatelessResetSize && p.data[0]&0b11000000 == 0b01000000 {
 			token := protocol.StatelessResetToken(p.data[len(p.data)-16:])
 			if c.connIDManager.IsActiveStatelessResetToken(token) {
-				return false, &StatelessResetError{}
+				// A stateless reset must not be answered with a CONNECTION_CLOSE (RFC 9000, section 10.3.1).
+				// Close immediately, as the Transport does when it is the one that detects the reset.
+				resetErr := &StatelessResetError{}
+				c.destroyImpl(resetErr)
+				return false, resetErr
 			}
 		}
 		wasQueued, err = c.handleUnpackError(err, p, qlog.PacketType1RTT, datagramID)
